@@ -259,6 +259,7 @@ func runCheck(repo, prop, tier, fnFilter, outDir string, noReplay, verbose bool)
 	if tier == "thorough" && fnFilter == "" && os.Getenv("NSQVC_NO_CANARIES") == "" {
 		rep.Canaries = runCanaries(prop, repo)
 	}
+	rep.Anchors = anchorCoverage(e, prop)
 	rep.WallS = time.Since(start).Seconds()
 	rep.print(verbose)
 	if fnFilter == "" {
